@@ -1,12 +1,13 @@
 #!/bin/bash
-# usage: tools/run_some.sh <tier> <out-tag> C01 C03 ... : the listed checks, one after the other (VERIF_SEED respected)
-cd /verif
-tier=$1; tag=$2; shift 2
-: > build/some_$tag.txt
+# tools/run_some.sh <tier> <ids...> : the named checks, one after the other, on the unchanged tree: build/some_<tier>.txt
+cd "$(dirname "$0")/.."
+tier=$1; shift
+mkdir -p build
+[ -f coq/Props/C01.vo ] || ./setup.sh > build/_setup.log 2>&1
 for p in "$@"; do
   s=$(date +%s)
-  timeout 7200 ./check $p --tier $tier > build/some_${tag}_$p.log 2>&1
+  timeout 7200 ./check $p --tier $tier > build/some_${tier}_$p.log 2>&1
   rc=$?
-  echo "$p rc=$rc $(( $(date +%s) - s ))s viol=$(grep -c '^VIOLATION' build/some_${tag}_$p.log) known=$(grep -c '^KNOWN-FINDING' build/some_${tag}_$p.log)" >> build/some_$tag.txt
+  echo "$p rc=$rc $(( $(date +%s) - s ))s viol=$(grep -c '^VIOLATION' build/some_${tier}_$p.log) known=$(grep -c '^KNOWN-FINDING' build/some_${tier}_$p.log) tier=$tier seed=${VERIF_SEED:-0}" | tee -a build/some_$tier.txt
 done
-echo ALL-DONE >> build/some_$tag.txt
+echo ALL-DONE | tee -a build/some_$tier.txt
